@@ -136,6 +136,44 @@ theorem lx_stringRest_safe {cs : List Char} (h : stringBodySafe cs = true) : str
     unfold stringRest
     simp [h1, h2, h3, h4, ih']
 
+/-- the escaped body of any Python string, then the closing quote -/
+theorem lx_escapeStringChar_cases (c : Char) :
+    (c = '\\' ∧ escapeStringChar c = ['\\', '\\']) ∨ (c = '"' ∧ escapeStringChar c = ['\\', '"']) ∨
+    (c = '\n' ∧ escapeStringChar c = ['\\', 'n']) ∨ (c = '\r' ∧ escapeStringChar c = ['\\', 'r']) ∨
+    (c ≠ '\\' ∧ c ≠ '"' ∧ c ≠ '\n' ∧ c ≠ '\r' ∧ escapeStringChar c = [c]) := by
+  unfold escapeStringChar
+  by_cases h1 : c = '\\'
+  · left; subst h1; exact ⟨rfl, by decide⟩
+  · by_cases h2 : c = '"'
+    · right; left; subst h2; exact ⟨rfl, by decide⟩
+    · by_cases h3 : c = '\n'
+      · right; right; left; subst h3; exact ⟨rfl, by decide⟩
+      · by_cases h4 : c = '\r'
+        · right; right; right; left; subst h4; exact ⟨rfl, by decide⟩
+        · right; right; right; right
+          exact ⟨h1, h2, h3, h4, by simp [h1, h2, h3, h4]⟩
+
+theorem lx_stringRest_escaped (cs : List Char) : stringRest false (cs.flatMap escapeStringChar ++ ['"']) = true := by
+  induction cs with
+  | nil => simp [stringRest]
+  | cons c t ih =>
+    rw [List.flatMap_cons, List.append_assoc]
+    rcases lx_escapeStringChar_cases c with ⟨_, h⟩ | ⟨_, h⟩ | ⟨_, h⟩ | ⟨_, h⟩ | ⟨h1, h2, h3, h4, h⟩
+    · rw [h]; simp [stringRest, isEscapeChar, ih]
+    · rw [h]; simp [stringRest, isEscapeChar, ih]
+    · rw [h]; simp [stringRest, isEscapeChar, ih]
+    · rw [h]; simp [stringRest, isEscapeChar, ih]
+    · rw [h]
+      show stringRest false (c :: (t.flatMap escapeStringChar ++ ['"'])) = true
+      unfold stringRest
+      simp [h1, h2, h3, h4, ih]
+
+/-- EVERY Python string is written as exactly one closed `STRING` token (repair d913d69) -/
+theorem lx_escape_closed (s : String) : isStringToken (escapeStringLiteral s) = true := by
+  unfold isStringToken escapeStringLiteral
+  rw [String.toList_ofList]
+  exact lx_stringRest_escaped s.toList
+
 theorem lx_string_closed {s : String} (h : stringBodySafe s.toList = true) :
     isStringToken ("\"" ++ s ++ "\"") = true := by
   unfold isStringToken
